@@ -70,6 +70,8 @@ long invoke(M& m, int func, int a0, int a1) {
     case F_v: m.v(a0); return 0;
     case F_cf: return static_cast<M const&>(m).cf(a0);
     case F_g: return m.g(a0, a1);
+    case F_w: return m.w(call_arg(F_w, 0, a0, a1), call_arg(F_w, 1, a0, a1), call_arg(F_w, 2, a0, a1), call_arg(F_w, 3, a0, a1), call_arg(F_w, 4, a0, a1), call_arg(F_w, 5, a0, a1),
+                         call_arg(F_w, 6, a0, a1), call_arg(F_w, 7, a0, a1), call_arg(F_w, 8, a0, a1), call_arg(F_w, 9, a0, a1), call_arg(F_w, 10, a0, a1), call_arg(F_w, 11, a0, a1));
   }
   return 0;
 }
